@@ -172,15 +172,29 @@ class Sim:
         self.lock_contended = 0
         self._spin = (-1, 0)            # (gstep of the last contended yield, consecutive yields without a step)
         self.watch = None               # shared_state.Watch polled before every step (single-thread tracing only)
+        self.sampler = None             # (callable, stride): called every `stride` steps (single-thread tracing only)
+        self._in_probe = False
 
     # -- called from the monitoring callback, in the running simulated thread
     def step(self, tid, code, arg):
+        if self._in_probe:
+            return                      # library code reached from inside a harness probe is not a step
         g = self.gstep = self.gstep + 1
         s = self.steps[tid] = self.steps[tid] + 1
         if self.record_trace:
             self.trace.append((id(code), arg))
         if self.watch is not None:
-            self.watch.poll(g)
+            self._in_probe = True
+            try:
+                self.watch.poll(g)
+            finally:
+                self._in_probe = False
+        if self.sampler is not None and g % self.sampler[1] == 0:
+            self._in_probe = True
+            try:
+                self.sampler[0]()
+            finally:
+                self._in_probe = False
         if s > self.budgets[tid]:
             self.budgets[tid] = s + 20_000   # raise again if the unwinding code keeps spinning
             raise StepBudgetExceeded(f"thread {tid} exceeded its step budget")
